@@ -149,6 +149,18 @@ fn main() {
     let code = match args.first().map(String::as_str) {
         Some("run") => cmd_run(&args[1..]),
         Some("merge") => cmd_merge(&args[1..]),
+        // prints the static completion stub of a trivial program called `my-app` and exits (the
+        // stub is printed by bpaf itself, which ends the process)
+        Some("stub") => {
+            use bpaf::Parser;
+            let style = args.get(1).cloned().unwrap_or_else(|| "bash".into());
+            let p = bpaf::short('a').switch().to_options();
+            let item: &'static str =
+                Box::leak(format!("--bpaf-complete-style-{}", style).into_boxed_str());
+            let items: &'static [&'static str] = Box::leak(vec![item].into_boxed_slice());
+            let _ = p.run_inner(bpaf::Args::from(items).set_name("my-app"));
+            3
+        }
         Some("emit") => emit::cmd_emit(&args[1..]),
         Some("emit-witness") => {
             outcome::install_panic_hook();
